@@ -109,6 +109,7 @@ package propeller
 // the shard itself: established for the unit just written (that later iterations leave the shard
 // arrays of earlier units alone is an aliasing fact the invariant does not carry)
 //@   loop 1: invariant own_shard: rangeindex >= 0 ==> units[rangeindex].ShardData[0] == encoded[rangeindex]
+//@   loop 1: invariant own_nonce: rangeindex >= 0 ==> units[rangeindex].Nonce == nonce && int(units[rangeindex].ShardIndex) == rangeindex
 //@   loop 1: invariant proof: forall j int :: 0 <= j && j <= rangeindex ==> units[j].MerkleProof == builtTree[j]
 //@   ensures units: result1 == nil ==> len(result0) == len(encoded) && (forall j int :: 0 <= j && j < len(result0) ==> result0[j].Nonce == nonce && int(result0[j].ShardIndex) == j && len(result0[j].ShardData) == 1 && result0[j].MerkleProof == builtTree[j])
 
@@ -139,11 +140,13 @@ package propeller
 // A shard index is answered only inside [0, N-1); the peer list is never indexed out of range.
 //@ func (*Scheduler).PeerForShardIndex
 //@   props C19
+//@   panicfree
 //@   arith int
 //@   requires s != nil && wfScheduler(s)
 //@   ensures in_range: result1 == nil ==> int(shardIndex) < s.numDataShards + s.numCodingShards
 //@ func (*Scheduler).ValidateShardOrigin
 //@   props C19
+//@   panicfree
 //@   arith int
 //@   logged
 //@   requires s != nil && wfScheduler(s)
@@ -170,6 +173,7 @@ package propeller
 //@   sets sameSig = result
 //@ func (*UnitValidator).verifyDataShards
 //@   props C19
+//@   panicfree
 //@   arith int
 //@   logged
 //@   requires v != nil && unit != nil
@@ -178,6 +182,7 @@ package propeller
 //@   ensures verified: result == nil ==> len(unit.ShardData) == 1 && calls_ProofVerify == old(calls_ProofVerify) + 1 && proofOK
 //@ func (*UnitValidator).verifySignature
 //@   props C19
+//@   panicfree
 //@   arith int
 //@   logged
 //@   requires v != nil && unit != nil
@@ -190,6 +195,7 @@ package propeller
 //@ ghost var accepted mathint
 //@ func (*UnitValidator).Validate
 //@   props C19
+//@   panicfree
 //@   arith int
 //@   logged
 //@   sets accepted = ite(result == nil, accepted + 1, accepted)
